@@ -2,6 +2,8 @@
 from .selftest import Mutant
 
 T = "pydrobert.torch.training"
+DL = "pydrobert.torch._dataloaders"
+DS = "pydrobert.torch._datasets"
 
 MUTANTS = [
     # ---- C16 -------------------------------------------------------------------------
@@ -55,5 +57,63 @@ MUTANTS = [
     ]),
     Mutant("c15-best-epoch-prefers-later-tie", "C15", T, [
         ("            if cur < min_met:\n", "            if cur <= min_met:\n"),
+    ]),
+    # ---- C13 -------------------------------------------------------------------------
+    Mutant("c13-drop-uses-total", "C13", DL, [
+        ("return islice(ret, self._rank, self.effective_total, self._world_size)", "return islice(ret, self._rank, self.total, self._world_size)"),
+    ]),
+    Mutant("c13-len-ignores-rank", "C13", DL, [
+        ("            self.effective_total - self._rank + self._world_size - 1\n", "            self.effective_total + self._world_size - 1\n"),
+    ]),
+    Mutant("c13-seed-includes-rank", "C13", DL, [
+        ("rs = np.random.RandomState((self.base_seed, epoch))", "rs = np.random.RandomState((self.base_seed + self._rank, epoch))"),
+    ]),
+    Mutant("c13-global-rng-permutation", "C13", DL, [
+        ("shuffled = rs.permutation(self.total)", "shuffled = np.random.permutation(self.total)"),
+    ]),
+    Mutant("c13-raise-mode-silently-drops", "C13", DL, [
+        ('                if on_uneven_distributed == "raise":\n                    raise ValueError(', '                if on_uneven_distributed == "raise!":\n                    raise ValueError('),
+        ('                elif on_uneven_distributed == "drop":', '                elif on_uneven_distributed in ("drop", "raise"):'),
+    ]),
+    Mutant("c13-iter-forgets-epoch-increment-on-restart", "C13", DL, [
+        ("        self.epoch = argcheck.is_int(init_epoch, name=\"init_epoch\")", "        self.epoch = max(argcheck.is_int(init_epoch, name=\"init_epoch\") - 1, 0)"),
+    ]),
+    # ---- C14 -------------------------------------------------------------------------
+    Mutant("c14-drop-incomplete-inverted", "C14", DL, [
+        ("        if not self.drop_incomplete:\n            for _, batch in sorted(", "        if self.drop_incomplete:\n            for _, batch in sorted("),
+    ]),
+    Mutant("c14-feat-padding-one", "C14", DL, [
+        ("        feats, padding_value=0, batch_first=batch_first", "        feats, padding_value=1, batch_first=batch_first"),
+    ]),
+    Mutant("c14-lang-ref-padding-zero", "C14", DL, [
+        ("    refs = torch.nn.utils.rnn.pad_sequence(\n        refs, padding_value=config.INDEX_PAD_VALUE, batch_first=batch_first\n    )\n    if has_uttids:\n        return refs, ref_sizes, tuple(uttids)",
+         "    refs = torch.nn.utils.rnn.pad_sequence(\n        refs, padding_value=0, batch_first=batch_first\n    )\n    if has_uttids:\n        return refs, ref_sizes, tuple(uttids)"),
+    ]),
+    Mutant("c14-len-rounds-wrong", "C14", DL, [
+        ("                len_ += (count + size - 1) // size", "                len_ += count // size + 1"),
+    ]),
+    Mutant("c14-bucket-boundary-inclusive", "C14", DL, [
+        ("sum(int(l > b) for b in len_bounds)", "sum(int(l >= b) for b in len_bounds[:-1])"),
+    ]),
+    Mutant("c14-dynamic-size-ignores-bucket", "C14", DL, [
+        ("bucket2size = dict((j, m // len_bounds[j]) for j in range(num_buckets))", "bucket2size = dict((j, m // len_bounds[-1]) for j in range(num_buckets))"),
+    ]),
+    Mutant("c14-revert-D5-len-cache", "C14", DL, [
+        ("if self._len is None or self._len[0] != epoch:", "if self._len is None:"),
+    ]),
+    Mutant("c14-window-left-pad-zero", "C14", DS, [
+        ("            window[:left_pad] = feat[0]", "            window[:left_pad] = 0"),
+    ]),
+    Mutant("c14-sort-ascending", "C14", DL, [
+        ("        seq = sorted(seq, key=lambda x: x[0].size(0), reverse=True)\n    seq = list(zip(*seq))", "        seq = sorted(seq, key=lambda x: x[0].size(0))\n    seq = list(zip(*seq))"),
+    ]),
+    Mutant("c14-revert-D6-empty-ref", "C14", DS, [
+        ("            ref = torch.cat([ref.new_full((1,), sos), ref], 0)", "            ref = torch.cat([torch.full_like(ref[:1], sos), ref], 0)"),
+    ]),
+    Mutant("c14-revert-D17-lang-bucket-len", "C14", DL, [
+        ("((x if isinstance(x, torch.Tensor) else x[0]).size(0), i)", "(x[0].size(0), i)"),
+    ]),
+    Mutant("c14-ali-sizes-from-refs", "C14", DL, [
+        ("    feat_sizes = torch.tensor([x.size(0) for x in feats])", "    feat_sizes = torch.tensor([max(x.size(0) - 1, 1) for x in feats])"),
     ]),
 ]
